@@ -187,7 +187,8 @@ func structured(c *hc.Ctx) []*canvas.Path {
 
 // structureMethods: derivations that must return a well-framed path with the same subpaths
 // (number, order — reversed for Reverse — and closedness) as their receiver.
-var structureMethods = map[string]bool{"Copy": true, "Flatten": true, "ReplaceArcs": true, "XMonotone": true, "Reverse": true}
+var structureMethods = map[string]bool{"Copy": true, "Flatten": true, "ReplaceArcs": true, "XMonotone": true, "Reverse": true,
+	"Translate": true, "Scale": true}
 
 func checkDerived(c *hc.Ctx, method string, in *canvas.Path, out []*canvas.Path, replay map[string]any) {
 	if !structureMethods[method] || len(out) != 1 || out[0] == nil {
